@@ -359,6 +359,18 @@ func runC16(w *c16World) ([]string, error) {
 	for i, p := range peers {
 		peerRx[i] = p.Received()
 	}
+	if srActive {
+		// each event follows its seven requests; give it the same bound the requests had, not a fixed delay
+		rec.WaitFor(bound, func(recs []sim.Rec) bool {
+			k := 0
+			for _, e := range recs {
+				if _, ok := e.Ev.(*gomavlib.EventStreamRequested); ok {
+					k++
+				}
+			}
+			return k >= len(ardu)+len(peers)
+		})
+	}
 	recs := rec.Snapshot()
 	closeNode(n, bound) //nolint:errcheck
 	rec.WaitClosed(bound)
